@@ -46,6 +46,9 @@ ASSUME LET A == {PoolAll[k].account : k \in DOMAIN PoolAll} IN OrderLaws(A)
 CmpE(c, o, v, lit) == [k |-> "cmp", col |-> c, op |-> o, v |-> v, lit |-> lit]
 MatchE(c, anch, s) == [k |-> "match", col |-> c, p |-> [anch |-> anch, s |-> s]]
 HasAcct(anch, s) == [k |-> "hasacct", p |-> [anch |-> anch, s |-> s]]
+InE(v, c) == [k |-> "in", v |-> v, col |-> c]
+IsNullE(c) == [k |-> "isnull", col |-> c]
+NotNullE(c) == [k |-> "notnull", col |-> c]
 AndE(a, b) == [k |-> "and", l |-> a, r |-> b]
 OrE(a, b) == [k |-> "or", l |-> a, r |-> b]
 NotE(a) == [k |-> "not", e |-> a]
@@ -132,25 +135,39 @@ BigPrintFroms == <<
     FromE(HasAcct(TRUE, "Expenses:Food")),
     FromE(AndE(MatchE("payee", FALSE, "o"), CmpE("month", "<=", 2, "2"))),
     FromE(CmpE("type", "=", "balance", Quote("balance"))),
-    FromE(OrE(CmpE("type", "=", "price", Quote("price")), CmpE("narration", "=", "Payroll", Quote("Payroll")))) >> \o ClauseFroms
+    FromE(OrE(CmpE("type", "=", "price", Quote("price")), CmpE("narration", "=", "Payroll", Quote("Payroll")))),
+    \* the columns that are sets, NULL on every directive that is not a transaction (notes and documents have tags and
+    \* links of their own)
+    FromE(InE("trip", "tags")),
+    FromE(InE("inv-1", "links")),
+    FromE(NotNullE("tags")),
+    FromE(IsNullE("links")),
+    FromE(NotE(InE("trip", "tags"))),
+    FromE(OrE(InE("food", "tags"), CmpE("type", "=", "open", Quote("open")))),
+    FromE(AndE(InE("trip", "tags"), CmpE("date", "<", 20200601, D20200601))) >> \o ClauseFroms
 BigShapes == MkBal(BigFroms, BigWheres) \o MkJrn(BigFroms, BigAccts) \o MkPrint(BigPrintFroms)
 
 (* ---- PRINT: one abstract directive of every type; the driver holds the concrete directive of every id ---- *)
-Dir(id, ty, d, fl, pa, na, ac) == [id |-> id, type |-> ty, date |-> d, flag |-> fl, payee |-> pa, narration |-> na, accounts |-> ac]
+\* what the directive carries: transactions, notes and documents have a set of tags and a set of links (possibly empty),
+\* the other types have no such attribute
+DirT(id, ty, d, fl, pa, na, ac, tg, lk) == [id |-> id, type |-> ty, date |-> d, flag |-> fl, payee |-> pa, narration |-> na,
+                                            accounts |-> ac, tags |-> tg, links |-> lk]
+Dir(id, ty, d, fl, pa, na, ac) == DirT(id, ty, d, fl, pa, na, ac, Null, Null)
 DirPoolAll == <<
     Dir(1, "open", 20200101, Null, Null, Null, {"Assets:Bank"}),
-    Dir(2, "transaction", 20200105, Some("*"), Some("Shop"), Some("Food"), {"Assets:Bank", "Expenses:Food"}),
-    Dir(3, "transaction", 20200105, Some("!"), Null, Some("Buy"), {"Assets:Broker", "Assets:Bank"}),
+    DirT(2, "transaction", 20200105, Some("*"), Some("Shop"), Some("Food"), {"Assets:Bank", "Expenses:Food"},
+         Some({"trip", "a-b"}), Some({"inv-1"})),
+    DirT(3, "transaction", 20200105, Some("!"), Null, Some("Buy"), {"Assets:Broker", "Assets:Bank"}, Some({}), Some({})),
     Dir(4, "price", 20200105, Null, Null, Null, {}),
     Dir(5, "balance", 20200201, Null, Null, Null, {"Assets:Bank"}),
-    Dir(6, "note", 20200201, Null, Null, Null, {"Assets:Bank"}),
+    DirT(6, "note", 20200201, Null, Null, Null, {"Assets:Bank"}, Some({"trip"}), Some({"inv-1"})),
     Dir(7, "pad", 20200301, Null, Null, Null, {"Assets:Bank", "Equity:Open"}),
-    Dir(8, "transaction", 20210210, Some("*"), Some("Job"), Some("Pay"), {"Assets:Bank", "Income:Job"}),
+    DirT(8, "transaction", 20210210, Some("*"), Some("Job"), Some("Pay"), {"Assets:Bank", "Income:Job"}, Some({}), Some({"pay-2021"})),
     Dir(9, "close", 20210301, Null, Null, Null, {"Expenses:Food"}),
     Dir(10, "commodity", 20200101, Null, Null, Null, {}),
     Dir(11, "event", 20200301, Null, Null, Null, {}),
     Dir(12, "query", 20200301, Null, Null, Null, {}),
-    Dir(13, "document", 20210101, Null, Null, Null, {"Assets:Bank"}),
+    DirT(13, "document", 20210101, Null, Null, Null, {"Assets:Bank"}, Some({"a-b"}), Some({})),
     Dir(14, "custom", 20210101, Null, Null, Null, {}),
     Dir(15, "open", 20200101, Null, Null, Null, {"Expenses:Food"}) >>
 DirPool9 == SubSeq(DirPoolAll, 1, 9)
@@ -169,7 +186,13 @@ PrintFroms == <<
     FromE(NotE(CmpE("type", "=", "transaction", Quote("transaction")))),
     FromE(OrE(CmpE("flag", "=", "!", Quote("!")), CmpE("date", ">=", 20210101, D20210101))),
     FromE(HasAcct(TRUE, "Expenses")),
-    FromE(AndE(MatchE("payee", FALSE, "o"), CmpE("month", "<=", 1, "1"))) >>
+    FromE(AndE(MatchE("payee", FALSE, "o"), CmpE("month", "<=", 1, "1"))),
+    FromE(InE("trip", "tags")),
+    FromE(InE("inv-1", "links")),
+    FromE(NotNullE("tags")),
+    FromE(IsNullE("links")),
+    FromE(NotE(InE("a-b", "tags"))),
+    FromE(OrE(InE("pay-2021", "links"), CmpE("type", "=", "open", Quote("open")))) >>
 \* memoisation tables: every string and pattern the constants above mention
 RECURSIVE PatsOf(_)
 PatsOf(e) == CASE e.k \in {"match", "hasacct"} -> {e.p}
